@@ -75,6 +75,9 @@ RespAlphabet ==
     <<PMD(<<P("server_max_window_bits", "15")>>)>>, <<PMD(<<P("server_max_window_bits", "10")>>)>>,
     <<PMD(<<P("client_max_window_bits", "")>>)>>, <<PMD(<<P("client_max_window_bits", "15")>>)>>, <<PMD(<<P("client_max_window_bits", "10")>>)>>, <<PMD(<<P("unknown_param", "")>>)>>,
     <<PMD(<<P("server_no_context_takeover", ""), P("server_no_context_takeover", "")>>)>>,
+    \* the same parameter twice with DIFFERENT values is a duplicate all the same (RFC 7692 7.1)
+    <<PMD(<<P("server_max_window_bits", "10"), P("server_max_window_bits", "12")>>)>>,
+    <<PMD(<<P("server_max_window_bits", "15"), P("server_max_window_bits", "10")>>)>>,
     << [name |-> "x-foo", params |-> <<>>] >>, <<PMD(<<>>), PMD(<<>>)>>, << [name |-> "x-foo", params |-> <<>>], PMD(<<>>) >> }
 (* a response is compliant towards THIS client's offer if it does not drop a no-takeover flag the offer carried; *)
 (* others come from a non-compliant server and are outside the statement ("open")                               *)
@@ -89,7 +92,8 @@ C13Set == { [resp |-> [status |-> st, conn |-> c, upg |-> u, accept |-> a, sub |
                       st \in {101, 200, 400, 500}, c \in RConn, u \in RUpg, a \in {"correct", "otherkey", "missing", "casechanged"},
                       sb \in {"", "a", "b", "A"}, rq \in {<<>>, <<"a">>, <<"a", "b">>},
                       x \in (IF Big THEN RespAlphabet ELSE {<<>>, <<PMD(<<>>)>>, << [name |-> "x-foo", params |-> <<>>] >>, <<PMD(<<P("unknown_param", "")>>)>>,
-                                               <<PMD(<<P("client_max_window_bits", "15")>>)>>, <<PMD(<<P("client_max_window_bits", "10")>>)>>, <<PMD(<<P("server_max_window_bits", "10")>>)>>}),
+                                               <<PMD(<<P("client_max_window_bits", "15")>>)>>, <<PMD(<<P("client_max_window_bits", "10")>>)>>, <<PMD(<<P("server_max_window_bits", "10")>>)>>,
+                                               <<PMD(<<P("server_max_window_bits", "10"), P("server_max_window_bits", "12")>>)>>}),
                       m \in (IF Big THEN Modes ELSE {"off", "ct"}) }
 C13Rows == SetToSeq({ [resp |-> r.resp, requested |-> r.requested, mode |-> r.mode, exp |-> VerifyResponse(r.resp, r.requested, r.mode)] : r \in C13Set })
 
